@@ -7,7 +7,7 @@ from symv.program import Program
 
 META = {
     "level": "exploration",
-    "level_text": "Random programs (10-40 public operations over a pool of values, all five symmetries incl. Z4, static and generic classes, abelian and fermionic, float/complex) are executed through the client facade; EVERY returned array / block vector / tuple member is audited by an independent structural oracle written from the statement with the harness's own group arithmetic: sorted charge tables with positive integer sizes and valid labels, every block in a charge-conserving sector with the shape its indices prescribe, fused indices whose sub-index table partitions them exactly (recursively), pending-sign keys charge conserving with values +-1, label count parity = charge parity. The library's own check() is never consulted (left off; thorough tier also runs half of the workers with SYMMRAY_DEBUG=1 to see that debug mode changes nothing). Results that fail the audit are not fed back into the pool. Later additions: the library's own random constructors (utils.get_rand / rand_index / get_rand_blockvector, every documented option) and short programs started from them; ~100 operation kinds incl. copy / pickle round trips, charged solves, ragged sums, option phase=False; unusual constructor forms (numpy-integer labels, strided blocks, stored +1 signs, dormant signs, stored zero blocks); call forms rewritten by the client-boundary shim.",
+    "level_text": "Random programs (10-40 public operations over a pool of values, all five symmetries incl. Z4, static and generic classes, abelian and fermionic, float/complex) are executed through the client facade; EVERY returned array / block vector / tuple member is audited by an independent structural oracle written from the statement with the harness's own group arithmetic: sorted charge tables with positive integer sizes and valid labels, every block in a charge-conserving sector with the shape its indices prescribe, fused indices whose sub-index table partitions them exactly (recursively), pending-sign keys charge conserving with values +-1, label count parity = charge parity. The library's own check() is never consulted (left off; thorough tier also runs half of the workers with SYMMRAY_DEBUG=1 to see that debug mode changes nothing). Results that fail the audit are not fed back into the pool. Later additions: the library's own random constructors (utils.get_rand / rand_index / get_rand_blockvector, every documented option) and short programs started from them; ~100 operation kinds incl. copy / pickle round trips, charged solves, ragged sums, option phase=False; unusual constructor forms (numpy-integer labels, strided blocks, stored +1 signs, dormant signs, stored zero blocks); call forms rewritten by the client-boundary shim. Round 9: user-defined symmetries (Z3, BoseFermi) in 6% of the programs; fuse results of 5-8-leg sparse arrays (groups of 4-7 axes, whole branches missing, every strategy) audited.",
     "technique": "runtime monitoring: invariant oracle on every value crossing the client boundary, random API programs",
     "rule": (
         "one evaluation = one audited return value of one program step. Non-trivial = the result has >=2 blocks, or a fused index, or a non-empty pending-sign table, or odd parity; "
